@@ -850,8 +850,9 @@ class WhileStatement(FlowStatement):
         self.__body = body
 
     def _Traverse(self, function):
-        self.__body = function(self.__body)
+        # Source order: the condition is evaluated (and typed) before the body
         self.__condition = function(self.__condition)
+        self.__body = function(self.__body)
 
     def GetCondition(self):
         return self.__condition
